@@ -556,6 +556,62 @@ def r01d(ctx):
 
 
 # ------------------------------------------------------------------------------------------------ R01e
+def _direct_flag_pairing(fn):
+    """(True / False / None, text): how BasicRayTracer.solutions pairs the three launch angles with the `direct` flag of the paths it builds.
+    True: the angles are [direct_angle, indirect_angle_1, indirect_angle_2] in that order and the flag is `position == 0` or comes from a
+    (True, False, False) sequence zipped alongside; False: a constructor call whose flag contradicts that; None: not readable."""
+    ANG = ["self.direct_angle", "self.indirect_angle_1", "self.indirect_angle_2"]
+    lists = [n for n in ast.walk(fn) if isinstance(n, (ast.List, ast.Tuple)) and [u(e) for e in n.elts] == ANG]
+    if len(lists) != 1:
+        other = [n for n in ast.walk(fn) if isinstance(n, (ast.List, ast.Tuple)) and sorted(u(e) for e in n.elts) == sorted(ANG)]
+        return (False, "angles listed as " + u(other[0])) if other else (None, "")
+    ctor = [c for c in ast.walk(fn) if is_call(c, name="solution_class", recv="self")]
+    if len(ctor) != 1:
+        return None, f"{len(ctor)} constructor call(s)"
+    flag = kwargs_of(ctor[0]).get("direct")
+    if flag is None:
+        return False, "no direct= argument: " + u(ctor[0])
+    if isinstance(flag, ast.Constant):
+        return False, "direct=" + u(flag)
+    # the loop / comprehension target that the flag refers to
+    iters = [(g.target, g.iter) for n in ast.walk(fn) if isinstance(n, (ast.ListComp, ast.GeneratorExp)) for g in n.generators] + \
+            [(n.target, n.iter) for n in ast.walk(fn) if isinstance(n, ast.For)]
+    if len(iters) != 1:
+        return None, f"{len(iters)} loops"
+    tgt, it = iters[0]
+    env = local_env(fn)
+
+    def resolve(e):
+        return env.get(e.id, e) if isinstance(e, ast.Name) and e.id in env else e
+    # position variable compared with 0
+    if isinstance(flag, ast.Compare) and len(flag.ops) == 1 and isinstance(flag.ops[0], ast.Eq):
+        a_, b_ = flag.left, flag.comparators[0]
+        var, const = (a_, b_) if isinstance(a_, ast.Name) else (b_, a_)
+        if not (isinstance(var, ast.Name) and isinstance(const, ast.Constant)):
+            return None, u(flag)
+        if const.value != 0:
+            return False, "direct=" + u(flag)
+        if is_call(it, func="zip") and it.args and u(it.args[0]) == "range(3)" and isinstance(tgt, ast.Tuple) and isinstance(tgt.elts[0], ast.Name) and tgt.elts[0].id == var.id \
+                and len(it.args) > 1 and [u(e) for e in getattr(resolve(it.args[1]), "elts", [])] == ANG:
+            return True, "zip(range(3), angles, ...) with direct = (position == 0)"
+        if is_call(it, func="enumerate") and it.args and isinstance(tgt, ast.Tuple) and isinstance(tgt.elts[0], ast.Name) and tgt.elts[0].id == var.id:
+            inner = resolve(it.args[0])
+            first = inner.args[0] if is_call(inner, func="zip") and inner.args else inner
+            if [u(e) for e in getattr(resolve(first), "elts", [])] == ANG:
+                return True, "enumerate(...) over the angles with direct = (position == 0)"
+        return None, u(flag)
+    # a flag taken from a sequence zipped with the angles
+    if isinstance(flag, ast.Name) and is_call(it, func="zip") and isinstance(tgt, ast.Tuple):
+        names = [e.id if isinstance(e, ast.Name) else None for e in tgt.elts]
+        if flag.id in names:
+            seq = resolve(it.args[names.index(flag.id)]) if names.index(flag.id) < len(it.args) else None
+            ang = [i for i, a_ in enumerate(it.args) if [u(e) for e in getattr(resolve(a_), "elts", [])] == ANG]
+            if isinstance(seq, (ast.Tuple, ast.List)) and all(isinstance(e, ast.Constant) for e in seq.elts) and ang:
+                vals = [e.value for e in seq.elts]
+                return (True, "flags (True, False, False) zipped with the angles") if vals == [True, False, False] else (False, "flags " + u(seq))
+    return None, u(flag)
+
+
 def r01e(ctx):
     repo = ctx.repo
     ctx.rule("R01e", "first solution direct, others turn over; received direction flips the vertical component exactly for non-direct paths; root brackets: direct [0, max_angle] "
@@ -613,8 +669,18 @@ def r01e(ctx):
     ok = len(r) == 1 and isinstance(r[0].value, ast.ListComp) and u(r[0].value.elt) == "self.solution_class(self, angle, direct=i == 0)" \
         and u(r[0].value.generators[0].iter) == "zip(range(3), angles, self.expected_solutions)" \
         and u(local_env(so).get("angles")) == "[self.direct_angle, self.indirect_angle_1, self.indirect_angle_2]"
-    ctx.check(ok, "R01e", f"{BT}.solutions", "only the first solution (the direct-angle one) is built as a direct path; the others are turned-over paths", u(r[0].value)[:120] if r else "",
-              key_detail="direct flag")
+    what = "only the first solution (the direct-angle one) is built as a direct path; the others are turned-over paths"
+    if ok:
+        ctx.ok("R01e", f"{BT}.solutions", what)
+    else:
+        # other spellings of the same pairing: the three angles in order, and a flag that is true for position 0 only
+        verdict, found = _direct_flag_pairing(so)
+        if verdict is True:
+            ctx.ok("R01e", f"{BT}.solutions", what, found)
+        elif verdict is False:
+            ctx.bad("R01e", f"{BT}.solutions", what, found, key_detail="direct flag")
+        else:
+            ctx.unknown("R01e", f"{BT}.solutions", what, found or (u(r[0].value)[:120] if r else ""))
     ma = repo.member(BT, "max_angle")
     r = returns(ma)
     ctx.check(len(r) == 1 and NF().nf(r[0].value.args[0]).equals(NF().nf(parse_expr("self.ice.index(self.z1) / self.n0"))) and is_call(r[0].value, func="np.arcsin"), "R01e", f"{BT}.max_angle",
